@@ -182,7 +182,7 @@ TARGETS = [
     dict(name="sc25519-invert", ladder=True, params=[{}]),
     dict(name="ed25519-scalarmult-alg", scalarmult=True, params=[{"op": "scalarmult_base"}, {"op": "scalarmult"}, {"op": "base_table"}, {"op": "mul_l"}]),
     dict(name="edwards-group-ops", edwards=True, params=[{"op": c} for c in ("add_cached", "sub_cached", "add_precomp", "sub_precomp", "p2_dbl", "p3_dbl", "p1p1_to_p3",
-                                                                              "p1p1_to_p2", "p3_to_cached", "p3_to_p2", "p3_0")]),
+                                                                              "p1p1_to_p2", "p3_to_cached", "p3_to_p2", "p3_0", "has_small_order")]),
     dict(name="fe25519-51-x25519", units=["crypto_scalarmult/curve25519/ref10/x25519_ref10.c", "sodium/utils.c"], cflags=["-fno-inline-functions"], run=fe51_op,
          params=[{"op": "mul"}, {"op": "sq"}, {"op": "mul32", "n": 121666, "out": (1 << 52) - 1},
                  {"op": "add", "in": (1 << 62) - 1, "out": (1 << 63) - 2}, {"op": "sub", "in": (1 << 53) - 1, "out": FE_IN}]),
@@ -264,7 +264,9 @@ def run_one(tname, pidx, workroot):
         r = edwards.run(p["op"], workroot)
         r["params"] = p
         r["claim"] = ("ge25519_%s satisfies the twisted Edwards addition / doubling law (polynomial identity over GF(2^255-19), every projective "
-                      "representation of the inputs)" % p["op"])
+                      "representation of the inputs)" % p["op"]) if p["op"] != "has_small_order" else (
+                      "ge25519_has_small_order (Z = 1, as decoded): returns the OR of four zero tests (all 16 answer patterns) on x, y and the two "
+                      "factors of x^2 + y^2 (product identity over GF(2^255-19), sqrtm1^2 = -1), i.e. 1 <=> x(4P) = 0 <=> 8P = O for curve points")
         return r
     if t.get("ladder"):
         from . import ladder
